@@ -73,6 +73,8 @@ def handle (_ : Unit) (toks : List Tok) : Unit × String :=
         pure (answerTIso (en != 0) (← graphOf gn ge) (← graphOf sn se) (← pairsOf c))
     | [Tok.str "tlcs", gn, ge, sn, se, c] => do
         pure (answerTLcs (← graphOf gn ge) (← graphOf sn se) (← pairsOf c))
+    | [Tok.str "tvalid", sn, se, c] => do
+        pure (encBool (C06I.constraintsValidB (← graphOf sn se) (← pairsOf c)))
     | [Tok.str "tcons", cs] => do
         pure (answerTCons (← (← cs.list?).mapM cosetOf))
     | _ => none
